@@ -32,7 +32,7 @@ def run(ctx):
     sub.rep = Report('C15', ctx.tier)
     run_c15(sub)
     for o in sub.rep.obligations:
-        if o['rule'] in ('R2', 'R3') or o['instance'].startswith('one-placement'):
+        if (o['rule'] in ('R2', 'R3') or o['instance'].startswith('one-placement')) and not o['instance'].startswith(('site-transform', 'anchor:site-transform')):
             (rep.ok if o['ok'] else rep.fail)('R1', 'C15:' + o['instance'], o['construct'], o['why']) if o['ok'] else \
                 rep.fail('R1', 'C15:' + o['instance'], o['construct'], o['why'], o['reason'])
     rep.analysed |= sub.rep.analysed
